@@ -332,6 +332,11 @@ func generate(cfg *hx.Config) []hx.Case {
 					e.SBLen = 8192
 				}
 			}
+			if mode == "pipe" && closeAt >= 0 && closeAt < ne-1 && e.SBLen > 8192 {
+				// the same reset also destroys EARLIER responses that are still in
+				// the proxy's send queue because the client reads more slowly
+				e.SBLen = 8192
+			}
 			exs = append(exs, e)
 		}
 		cases = append(cases, caseOf(fmt.Sprintf("g%d", k), mode, exs))
